@@ -116,7 +116,8 @@ func checkC11(c *core.Check) {
 			id := fmt.Sprintf("sec%dk%d", gi, ki)
 			list := byGlobal[gk]
 			a := &aspec.ASpec{Base: aspec.Base{Form: "servers", Segs: []string{"v1"}}, SpecName: "openapi.yaml",
-				Flags: aspec.Flags{APIHandler: true, DoNotEdit: true}, Security: toSec(list[0].Global),
+				// every other package is generated with CORS on (synthetic preflight entries next to the operations)
+				Flags: aspec.Flags{APIHandler: true, DoNotEdit: true, Cors: (gi+ki)%2 == 0}, Security: toSec(list[0].Global),
 				Schemes: []aspec.Scheme{{Key: "A", Kind: "bearer"}, {Key: "B", Kind: ks.b, Name: map[string]string{"apiKeyHeader": "X-Key-B", "apiKeyQuery": "kb"}[ks.b]}, {Key: "C", Kind: ks.c, Name: "kc"}}}
 			type opRef struct{ method, path string }
 			var ops []opRef
@@ -130,7 +131,7 @@ func checkC11(c *core.Check) {
 			specs[id] = a
 			insts := []map[string]bool{{"A": true, "B": true, "C": true}, {"B": true, "C": true}, {"A": true, "C": true}}
 			for ii, inst := range insts {
-				g := pGroup{Pkg: id, ASpec: a, API: driver.APIConfig{Mw: 1, NotFound: true, Auth: inst}}
+				g := pGroup{Pkg: id, ASpec: a, API: driver.APIConfig{Mw: 1, NotFound: true, Auth: inst, Cors: a.Flags.Cors}}
 				for _, o := range ops {
 					for ci, cr := range allCreds {
 						if !thorough {
